@@ -52,6 +52,7 @@ const vaNoRespIf = "eth9" // an interface name with no responder
 const vaNoRespIfID = 9
 
 var vaV4 = []string{"10.0.0.1", "10.0.0.2", "192.168.1.20", "172.16.5.255"}
+
 // two addresses in ONE solicited-node group and one in another; the low 24 bits are drawn per
 // process so that concurrent runs on this machine join different multicast groups (the kernel's
 // membership table is observed)
@@ -331,7 +332,7 @@ type vaPC struct {
 	nb, nu atomic.Int64 // broadcast / unicast frames written
 	ipMu   sync.Mutex
 	byIP   map[string]int // broadcast (unsolicited) frames per sender address
-	lb, lu int64        // counts at the last take()
+	lb, lu int64          // counts at the last take()
 	closed chan struct{}
 	once   sync.Once
 }
@@ -384,8 +385,13 @@ func (p *vaPC) take() (bcast, ucast int) {
 
 func (p *vaPC) bcastCount() int { return int(p.nb.Load()) }
 
-func vaFrame(op int, dst net.HardwareAddr, target string) []byte {
-	pkt, err := arp.NewPacket(arp.Operation(op), vaSrcMAC, net.IPv4(192, 168, 1, 1), dst, net.ParseIP(target))
+// vaFrame: dst is the destination of the ETHERNET header, tha the target-hardware-address field of
+// the ARP payload; the two are chosen independently (a unicast probe carries a zero THA, a frame
+// for another station may carry this node's MAC as THA).
+var vaZeroMAC = net.HardwareAddr{0, 0, 0, 0, 0, 0}
+
+func vaFrame(op int, dst, tha net.HardwareAddr, target string) []byte {
+	pkt, err := arp.NewPacket(arp.Operation(op), vaSrcMAC, net.IPv4(192, 168, 1, 1), tha, net.ParseIP(target))
 	if err != nil {
 		panic(err)
 	}
@@ -402,10 +408,10 @@ func vaFrame(op int, dst net.HardwareAddr, target string) []byte {
 
 type vaSUT struct {
 	realIf string // the interface the NDP sockets are bound to
-	a    *Announce
-	pcs  []*vaPC // per ARP responder
-	narp int
-	ndps []int // interface ids with an NDP responder
+	a      *Announce
+	pcs    []*vaPC // per ARP responder
+	narp   int
+	ndps   []int // interface ids with an NDP responder
 }
 
 func vaLinkLocalIf() *net.Interface {
@@ -780,28 +786,39 @@ func vaRunHistory(out *vOut, r *rand.Rand, id, steps int, replay *vaHist) {
 			dsts := []net.HardwareAddr{ethernet.Broadcast, vaMACs[resp], vaMACs[(resp+1)%len(vaMACs)], vaOtherMAC}
 			for _, opn := range []int{1, 2, 0, 3, 8} {
 				for _, dst := range dsts {
-					for _, tgt := range append(append([]string{}, vaV4...), vaNever4) {
-						sut.pcs[resp].take()
-						sut.pcs[resp].in <- vaFrame(opn, dst, tgt)
-						got := sut.a.VerifARPProcess(resp)
-						_, replies := sut.pcs[resp].take()
-						want := w.arp(vaIfs[resp], vaMACs[resp], opn, dst, tgt)
-						out.Stat("arp_packets", 1)
-						if want == 0 {
-							out.Stat("arp_replies", 1)
-						}
-						if (got == 0) != (replies == 1) || replies > 1 {
-							fail("l2-arp-reply-frames", fmt.Sprintf("drop reason %d but %d reply frames written", got, replies))
-						}
-						if got == 0 && opn != 1 {
-							fail("l2-arp-reply-nonrequest", fmt.Sprintf("ARP responder on %s replied to a packet with operation %d (not a request) for %s", vaIfs[resp], opn, tgt))
-						} else if got == 0 && dst.String() != ethernet.Broadcast.String() && dst.String() != vaMACs[resp].String() {
-							fail("l2-arp-reply-wrong-destination", fmt.Sprintf("ARP responder on %s replied to a request sent to %s (neither broadcast nor its own address)", vaIfs[resp], dst))
-						} else if got != want {
-							fail("l2-arp-decision", fmt.Sprintf("ARP responder on %s: op %d dst %s target %s: drop reason %d, want %d", vaIfs[resp], opn, dst, tgt, got, want))
-						}
-						if ship {
-							obs = append(obs, cCtor("OArp", cNi(resp), vaMacN(vaMACs[resp]), cNi(opn), vaMacN(dst), vaCoqIP(tgt), vaDrops[got], cBool(replies == 1)))
+					// requests: every THA (zero / own MAC / another station / broadcast) against every
+					// Ethernet destination and every target; other operations (never answered, whatever
+					// the rest): THA equal to the destination or the own MAC, two targets, rotating
+					thas := []net.HardwareAddr{vaZeroMAC, vaMACs[resp], vaOtherMAC, ethernet.Broadcast}
+					tgts := append(append([]string{}, vaV4...), vaNever4)
+					if opn != 1 {
+						thas = []net.HardwareAddr{[]net.HardwareAddr{dst, vaMACs[resp]}[(k+opn)%2]}
+						tgts = []string{vaV4[(k+opn+id)%len(vaV4)], vaNever4}
+					}
+					for _, tha := range thas {
+						for _, tgt := range tgts {
+							sut.pcs[resp].take()
+							sut.pcs[resp].in <- vaFrame(opn, dst, tha, tgt)
+							got := sut.a.VerifARPProcess(resp)
+							_, replies := sut.pcs[resp].take()
+							want := w.arp(vaIfs[resp], vaMACs[resp], opn, dst, tgt)
+							out.Stat("arp_packets", 1)
+							if want == 0 {
+								out.Stat("arp_replies", 1)
+							}
+							if (got == 0) != (replies == 1) || replies > 1 {
+								fail("l2-arp-reply-frames", fmt.Sprintf("drop reason %d but %d reply frames written", got, replies))
+							}
+							if got == 0 && opn != 1 {
+								fail("l2-arp-reply-nonrequest", fmt.Sprintf("ARP responder on %s replied to a packet with operation %d (not a request) for %s", vaIfs[resp], opn, tgt))
+							} else if got == 0 && dst.String() != ethernet.Broadcast.String() && dst.String() != vaMACs[resp].String() {
+								fail("l2-arp-reply-wrong-destination", fmt.Sprintf("ARP responder on %s (MAC %s) replied to a request whose Ethernet destination is %s (neither broadcast nor its own address), ARP target hardware address %s", vaIfs[resp], vaMACs[resp], dst, tha))
+							} else if got != want {
+								fail("l2-arp-decision", fmt.Sprintf("ARP responder on %s (MAC %s): op %d Ethernet destination %s ARP target hardware address %s target %s: drop reason %d, want %d", vaIfs[resp], vaMACs[resp], opn, dst, tha, tgt, got, want))
+							}
+							if ship {
+								obs = append(obs, cCtor("OArp", cNi(resp), vaMacN(vaMACs[resp]), cNi(opn), vaMacN(dst), vaMacN(tha), vaCoqIP(tgt), vaDrops[got], cBool(replies == 1)))
+							}
 						}
 					}
 				}
@@ -836,7 +853,9 @@ type vaReq struct {
 	Sent   []int  `json:"sent,omitempty"`
 	Lo     int    `json:"lo"`
 	Hi     int    `json:"hi"`
+	Tha    string `json:"tha"`
 	dst    net.HardwareAddr
+	tha    net.HardwareAddr
 }
 
 func (q vaReq) expect(w vaSpec) (int, []int) {
@@ -932,8 +951,9 @@ func vaRunConc(out *vOut, r *rand.Rand, id int) {
 				switch x := rg.Intn(10); {
 				case x < 6:
 					dsts := []net.HardwareAddr{ethernet.Broadcast, vaMACs[g], vaOtherMAC}
-					q = vaReq{Kind: "arp", Resp: g, Op: []int{1, 1, 1, 2, 3}[rg.Intn(5)], dst: dsts[rg.Intn(3)], Target: tgts[rg.Intn(len(tgts))]}
-					q.Dst = q.dst.String()
+					thas := []net.HardwareAddr{vaZeroMAC, vaMACs[g], vaOtherMAC, ethernet.Broadcast}
+					q = vaReq{Kind: "arp", Resp: g, Op: []int{1, 1, 1, 2, 3}[rg.Intn(5)], dst: dsts[rg.Intn(3)], tha: thas[rg.Intn(4)], Target: tgts[rg.Intn(len(tgts))]}
+					q.Dst, q.Tha = q.dst.String(), q.tha.String()
 				case x < 8:
 					q = vaReq{Kind: "should", Target: tgts[rg.Intn(len(tgts))], Intf: append(append([]string{}, vaIfs...), vaNoRespIf)[rg.Intn(5)]}
 				case x < 9 || g != 0:
@@ -944,7 +964,7 @@ func vaRunConc(out *vOut, r *rand.Rand, id int) {
 				q.Lo = int(done.Load())
 				switch q.Kind {
 				case "arp":
-					sut.pcs[g].in <- vaFrame(q.Op, q.dst, q.Target)
+					sut.pcs[g].in <- vaFrame(q.Op, q.dst, q.tha, q.Target)
 					q.Got = sut.a.VerifARPProcess(g)
 				case "should":
 					q.Got = sut.a.VerifShouldAnnounce(net.ParseIP(q.Target), q.Intf)
